@@ -269,4 +269,129 @@ Section Inv.
       destruct (Z.leb_spec (16 * f) v), (Z.ltb_spec v (16 * f + 16)); cbn [andb]; try lia; reflexivity.
     - repeat split; try reflexivity. rewrite map2_at_length. exact HL.
   Qed.
+  Lemma BlockIs_ext s f g g' : (forall v, 16 * f <= v < 16 * f + 16 -> g v = g' v) -> BlockIs s f g -> BlockIs s f g'.
+  Proof. intros E H v Hv. rewrite <- E by exact Hv. apply H. exact Hv. Qed.
+
+  Lemma SameButFine_trans s2 s1 s0 : SameButFine s2 s1 -> SameButFine s1 s0 -> SameButFine s2 s0.
+  Proof. unfold SameButFine. intros (A1 & A2 & A3 & A4 & A5 & A6 & A7) (B1 & B2 & B3 & B4 & B5 & B6 & B7). repeat split; congruence. Qed.
+  Lemma OutSame_trans s2 s1 s0 f : OutSame s2 s1 f -> OutSame s1 s0 f -> OutSame s2 s0 f.
+  Proof. intros A B v Hv Hn. rewrite A by assumption. apply B; assumption. Qed.
+  Lemma OutSame_refl s f : OutSame s s f. Proof. intros v _ _. reflexivity. Qed.
+
+  (* replaying column cc in fine block f: accumulate_fine_histogram + deaccumulate_fine_histogram *)
+  Lemma fine_replay_step (s s0 : st) (row c cc f : Z) :
+    Slots s0 row c -> c <= e_cols e + e_R e - 1 -> s_cols s = s_cols s0 -> s_row s = row -> - e_R e <= cc <= c ->
+    length (fine (s_acc s)) = 256%nat -> 0 <= f < 16 ->
+    BlockIs s f (hF e (Soct e (cc - 1) row)) ->
+    let s' := deacc_fine e (acc_fine e s cc f) cc f in
+    BlockIs s' f (hF e (Soct e cc row)) /\ OutSame s' s f /\ SameButFine s' s.
+  Proof.
+    intros (HL & HTLBR & HTRBL & HEDs) Hcmax Hcols0 Hrow Hcc HLf Hf HB. cbv zeta.
+    assert (slot_eq : forall (s1 : st) o, s_cols s1 = s_cols s0 -> slot s1 o = slot s0 o)
+      by (intros s1 o E; unfold slot; rewrite E; reflexivity).
+    (* the pieces of column cc as they are in the buffer *)
+    destruct (HTLBR cc ltac:(lia)) as [PTL PBR]. destruct (HTRBL cc ltac:(lia)) as [PTR PBL]. pose proof (HEDs cc ltac:(lia)) as PED.
+    unfold CTL, CBR in PTL, PBR. unfold CTR, CBL in PTR, PBL. unfold CED in PED.
+    destruct (Z.leb_spec cc c); [|lia].
+    pose proof (fun v => hist_col_step e Ha HR cc row (Z.eqb v)) as ID.
+    (* accumulate_fine_histogram *)
+    unfold acc_fine.
+    assert (Q1 : SlotIs e (slot s (tr_bl e (s_row s) cc)) TR (at_ (bTR e) cc row)) by (rewrite Hrow, slot_eq by assumption; exact PTR).
+    destruct (fine_add_spec s _ TR _ f _ Q1 HLf Hf HB) as (B1 & O1 & F1).
+    set (s1 := fine_add s (tr_bl e (s_row s) cc) TR (f * 16)) in *.
+    destruct F1 as (C1 & _ & _ & _ & R1 & _ & L1).
+    assert (Q2 : SlotIs e (slot s1 (lead_ix e cc)) ED (at_ (bED e) cc row)) by (rewrite slot_eq by congruence; exact PED).
+    destruct (fine_add_spec s1 _ ED _ f _ Q2 L1 Hf B1) as (B2 & O2 & F2).
+    set (s2 := fine_add s1 (lead_ix e cc) ED (f * 16)) in *.
+    destruct F2 as (C2 & _ & _ & _ & R2 & _ & L2).
+    assert (Q3 : SlotIs e (slot s2 (tl_br e (s_row s2) cc)) BR (at_ (bBR e) cc row))
+      by (rewrite R2, R1, Hrow, slot_eq by congruence; exact PBR).
+    destruct (fine_add_spec s2 _ BR _ f _ Q3 L2 Hf B2) as (B3 & O3 & F3).
+    set (s3 := fine_add s2 (tl_br e (s_row s2) cc) BR (f * 16)) in *.
+    assert (F30 : SameButFine s3 s).
+    { eapply SameButFine_trans; [exact F3|]. eapply SameButFine_trans; [|apply (proj2 (proj2 (fine_add_spec s _ TR _ f _ Q1 HLf Hf HB)))].
+      apply (proj2 (proj2 (fine_add_spec s1 _ ED _ f _ Q2 L1 Hf B1))). }
+    assert (O30 : OutSame s3 s f) by (eapply OutSame_trans; [exact O3|]; eapply OutSame_trans; [exact O2|exact O1]).
+    destruct F3 as (C3 & _ & _ & _ & R3 & _ & L3).
+    assert (Rs3 : s_row s3 = row) by congruence. assert (Cs3 : s_cols s3 = s_cols s0) by congruence.
+    (* deaccumulate_fine_histogram *)
+    unfold deacc_fine. destruct (cc <? e_a2 e) eqn:G1.
+    - assert (cc <= MedianSlide.a2 e) by (unfold MedianSlide.a2; lia).
+      assert (cc <= MedianSlide.R e) by (unfold MedianSlide.R, MedianSlide.a2 in *; lia).
+      split; [|split; assumption].
+      eapply BlockIs_ext; [|exact B3]. intros v Hv. cbv beta. unfold hF. rewrite (ID v).
+      rewrite TL_empty, BL_empty, TE_empty by assumption. lia.
+    - assert (Q4 : SlotIs e (slot s3 (tl_br e (s_row s3) cc)) TL (at_ (bTL e) cc row)) by (rewrite Rs3, slot_eq by assumption; exact PTL).
+      destruct (fine_sub_spec s3 _ TL _ f _ Q4 L3 Hf B3) as (B4 & O4 & F4).
+      set (s4 := fine_sub s3 (tl_br e (s_row s3) cc) TL (f * 16)) in *.
+      pose proof F4 as F4'. destruct F4 as (C4 & _ & _ & _ & R4 & _ & L4).
+      assert (Rs4 : s_row s4 = row) by congruence. assert (Cs4 : s_cols s4 = s_cols s0) by congruence.
+      destruct (e_R e <=? cc) eqn:G2.
+      + assert (Q5 : SlotIs e (slot s4 (trail_ix e cc)) ED (at_ (bED e) (cc - 2 * e_R e - 1) row)).
+        { rewrite slot_eq by assumption. destruct (index_follow e cc row) as (_ & _ & E). rewrite E.
+          pose proof (HEDs (cc - 2 * e_R e - 1) ltac:(lia)) as Q. unfold CED in Q.
+          destruct (Z.leb_spec (cc - 2 * e_R e - 1) c); [exact Q|lia]. }
+        destruct (fine_sub_spec s4 _ ED _ f _ Q5 L4 Hf B4) as (B5 & O5 & F5).
+        set (s5 := fine_sub s4 (trail_ix e cc) ED (f * 16)) in *.
+        pose proof F5 as F5'. destruct F5 as (C5 & _ & _ & _ & R5 & _ & L5).
+        assert (Q6 : SlotIs e (slot s5 (tr_bl e (s_row s5) cc)) BL (at_ (bBL e) cc row))
+          by (rewrite R5, Rs4, slot_eq by congruence; exact PBL).
+        destruct (fine_sub_spec s5 _ BL _ f _ Q6 L5 Hf B5) as (B6 & O6 & F6).
+        split; [|split].
+        * eapply BlockIs_ext; [|exact B6]. intros v Hv. cbv beta. unfold hF. rewrite (ID v).
+          rewrite (TE_is_ED e). fold (MedianSlide.R e). lia.
+        * eapply OutSame_trans; [exact O6|]. eapply OutSame_trans; [exact O5|]. eapply OutSame_trans; [exact O4|exact O30].
+        * eapply SameButFine_trans; [exact F6|]. eapply SameButFine_trans; [exact F5'|]. eapply SameButFine_trans; [exact F4'|exact F30].
+      + assert (cc <= MedianSlide.R e) by (unfold MedianSlide.R; lia).
+        assert (Q6 : SlotIs e (slot s4 (tr_bl e (s_row s4) cc)) BL (at_ (bBL e) cc row))
+          by (rewrite Rs4, slot_eq by assumption; exact PBL).
+        destruct (fine_sub_spec s4 _ BL _ f _ Q6 L4 Hf B4) as (B6 & O6 & F6).
+        split; [|split].
+        * eapply BlockIs_ext; [|exact B6]. intros v Hv. cbv beta. unfold hF. rewrite (ID v).
+          rewrite TE_empty by assumption. lia.
+        * eapply OutSame_trans; [exact O6|]. eapply OutSame_trans; [exact O4|exact O30].
+        * eapply SameButFine_trans; [exact F6|]. eapply SameButFine_trans; [exact F4'|exact F30].
+  Qed.
+  Lemma fine_replay_fold (s0 : st) (row c f : Z) :
+    Slots s0 row c -> c <= e_cols e + e_R e - 1 -> 0 <= f < 16 ->
+    forall n lo s, s_cols s = s_cols s0 -> s_row s = row -> - e_R e <= lo -> lo + Z.of_nat n - 1 <= c ->
+      length (fine (s_acc s)) = 256%nat -> BlockIs s f (hF e (Soct e (lo - 1) row)) ->
+      let s' := fold_left (fun s c => deacc_fine e (acc_fine e s c f) c f) (zrange_n lo n) s in
+      BlockIs s' f (hF e (Soct e (lo + Z.of_nat n - 1) row)) /\ OutSame s' s f /\ SameButFine s' s.
+  Proof.
+    intros HS Hcmax Hf. induction n as [|n IH]; intros lo s Hc0 Hrow Hlo Hhi HLf HB; cbv zeta; cbn [zrange_n fold_left].
+    - replace (lo + Z.of_nat 0 - 1) with (lo - 1) by lia. split; [exact HB|]. split; [apply OutSame_refl|].
+      unfold SameButFine. repeat split; try reflexivity. exact HLf.
+    - destruct (fine_replay_step s s0 row c lo f HS Hcmax Hc0 Hrow ltac:(lia) HLf Hf HB) as (B1 & O1 & F1).
+      set (s1 := deacc_fine e (acc_fine e s lo f) lo f) in *.
+      pose proof F1 as (C1 & _ & _ & _ & R1 & _ & L1).
+      destruct (IH (lo + 1) s1 ltac:(congruence) ltac:(congruence) ltac:(lia) ltac:(lia) L1
+                   ltac:(replace (lo + 1 - 1) with lo by lia; exact B1)) as (B2 & O2 & F2).
+      replace (lo + Z.of_nat (S n) - 1) with (lo + 1 + Z.of_nat n - 1) by lia.
+      split; [exact B2|]. split; [eapply OutSame_trans; eassumption|eapply SameButFine_trans; eassumption].
+  Qed.
+
+  (* update_fine: the lazily replayed block equals the window's fine bins, nothing else moves *)
+  Theorem update_fine_spec (s : st) (row c f : Z) :
+    s_row s = row -> s_col s = c -> Slots s row c -> c <= e_cols e + e_R e - 1 -> FineInv s row c -> 0 <= f < 16 ->
+    let s' := update_fine e s f in
+    FineInv s' row c /\ BlockIs s' f (hF e (Soct e c row)) /\
+    s_cols s' = s_cols s /\ coarse (s_acc s') = coarse (s_acc s) /\ s_accn s' = s_accn s /\ s_row s' = row /\ s_col s' = c.
+  Proof.
+    intros Hrow Hcol HS Hcmax (HL1 & HL2 & HF) Hf. cbv zeta. unfold update_fine.
+    destruct (HF f Hf) as [Hl HB]. set (l := getz 0 (s_last s) f) in *.
+    unfold zrange. rewrite Hcol.
+    destruct (fine_replay_fold s row c f HS Hcmax Hf (Z.to_nat (c + 1 - (l + 1))) (l + 1) s eq_refl Hrow ltac:(lia) ltac:(lia) HL1
+                ltac:(replace (l + 1 - 1) with l by lia; exact HB)) as (B & O & F).
+    set (s2 := fold_left _ _ s) in *.
+    replace (l + 1 + Z.of_nat (Z.to_nat (c + 1 - (l + 1))) - 1) with c in B by lia.
+    destruct F as (C2 & A2 & N2 & T2 & R2 & K2 & L2).
+    cbn [set_last s_cols s_acc s_accn s_last s_row s_col].
+    split; [|split; [exact B|repeat split; congruence]].
+    unfold FineInv, BlockIs. cbn [set_last s_cols s_acc s_accn s_last s_row s_col].
+    split; [exact L2|]. split; [rewrite updz_length, T2; exact HL2|].
+    intros f' Hf'. rewrite T2, K2, Hcol. rewrite getz_updz by lia. destruct (f' =? f) eqn:E.
+    - assert (f' = f) by lia. subst f'. split; [lia|exact B].
+    - destruct (HF f' Hf') as [Hl' HB']. split; [exact Hl'|]. intros v Hv. rewrite O by lia. apply HB'. exact Hv.
+  Qed.
 End Inv.
